@@ -14,6 +14,7 @@ CONSTANTS Regs,      \* register names
           Patterns,  \* sequence of component tuples objects are constructed from (distinct per slot)
           Nums,      \* plain-number operands
           Caps,      \* capabilities of the type: subset of {"add","sub","muln","nmul","divn","ratio","addeq","subeq","muleq","diveq","set","mutable"}
+          Factor,    \* SI magnitude (an integer) of the one non-standard unit used by the unit actions; 0: no unit actions
           MaxAbs,    \* bound keeping every value exactly representable in float
           Depth      \* length of generated behaviours
 
@@ -48,6 +49,14 @@ Zero(r)         == /\ Write(r, ZeroV) /\ NoObs /\ Log("Zero", r, "", "", 0)
 CopyConstruct(r, s) == /\ Defined(s) /\ Write(r, store[s]) /\ NoObs /\ Log("Copy", r, s, "", 0)       \* Q r(s); s unchanged
 Assign(r, s)    == /\ Defined(r) /\ Defined(s) /\ Write(r, store[s]) /\ NoObs /\ Log("Assign", r, s, "", 0)
 MoveFrom(r, s)  == /\ Defined(s) /\ r # s /\ Write(r, store[s]) /\ NoObs /\ Log("Move", r, s, "", 0)   \* trivially copyable: source keeps its value
+(* ---- units: a value supplied with a unit is converted once, on construction, to the standard unit; every way of reading it back ----*)
+(* ---- in that unit returns the original number (C02).  The unit has SI magnitude Factor.                                      ----*)
+ConstructIn(r, k) == /\ Factor > 0 /\ Small(Times(Patterns[k], Factor))
+                     /\ Write(r, Times(Patterns[k], Factor)) /\ NoObs /\ Log("ConstructIn", r, "", "", k)      \* Q(value, unit)
+CreateIn(r, k)    == /\ Factor > 0 /\ Small(Times(Patterns[k], Factor))
+                     /\ Write(r, Times(Patterns[k], Factor)) /\ NoObs /\ Log("CreateIn", r, "", "", k)         \* Q::Create<unit>(value)
+ReadIn(r, how)    == /\ Factor > 0 /\ Defined(r) /\ Divisible(store[r], Factor)
+                     /\ obs' = Quot(store[r], Factor) /\ UNCHANGED store /\ Log(how, "", r, "", 0)              \* Value(unit), StaticValue<unit>(), Print(unit)
 (* ---- pure operators: the result is a new object stored in dst; operands unchanged ---- *)
 Add(d, a, b) == /\ "add" \in Caps /\ Defined(a) /\ Defined(b) /\ Small(Plus(store[a], store[b]))
                 /\ Write(d, Plus(store[a], store[b])) /\ NoObs /\ Log("Add", d, a, b, 0)
@@ -80,6 +89,8 @@ NoAct == [act |-> "", dst |-> "", a |-> "", b |-> "", n |-> 0]
 Init == store = [r \in Regs |-> Undef] /\ obs = <<>> /\ last = NoAct /\ hist = <<>>
 Next == \/ \E r \in Regs, k \in 1..Len(Patterns) : Construct(r, k) \/ SetValue(r, k) \/ MutableWrite(r, k)
         \/ \E r \in Regs : Zero(r) \/ ReadValue(r) \/ Serialize(r)
+        \/ \E r \in Regs, k \in 1..Len(Patterns) : ConstructIn(r, k) \/ CreateIn(r, k)
+        \/ \E r \in Regs, how \in {"ReadIn", "StaticReadIn", "PrintIn"} : ReadIn(r, how)
         \/ \E r, s \in Regs : CopyConstruct(r, s) \/ Assign(r, s) \/ MoveFrom(r, s) \/ AddEq(r, s) \/ SubEq(r, s) \/ RatioOf(r, s)
         \/ \E d, a, b \in Regs : Add(d, a, b) \/ Sub(d, a, b)
         \/ \E d, a \in Regs, n \in Nums : MulN(d, a, n) \/ NMul(d, n, a) \/ DivN(d, a, n)
@@ -89,7 +100,9 @@ Spec == Init /\ [][Next]_vars
 (* ---- properties of the machine itself (checked by MC_Store) ---- *)
 TypeOK == \A r \in Regs : store[r] = Undef \/ (Len(store[r]) = NComp /\ Small(store[r]))
 (* reads never change the store; compound forms equal pure forms; copying forms keep their argument *)
-ReadsAreReadOnly == [][last'.act \in {"ReadValue", "Serialize", "Ratio"} => store' = store]_vars
+ReadsAreReadOnly == [][last'.act \in {"ReadValue", "Serialize", "Ratio", "ReadIn", "StaticReadIn", "PrintIn"} => store' = store]_vars
+(* constructing in a unit and reading back in that unit returns the original number *)
+ReadBack == [][(last.act \in {"ConstructIn", "CreateIn"} /\ last'.act \in {"ReadIn", "StaticReadIn", "PrintIn"} /\ last'.a = last.dst) => obs' = Patterns[last.n]]_vars
 CompoundEqualsPure ==
   [][/\ last'.act = "AddEq" => store'[last'.a] = Plus(store[last'.a], store[last'.b])
      /\ last'.act = "SubEq" => store'[last'.a] = Minus(store[last'.a], store[last'.b])
